@@ -1077,7 +1077,7 @@ def obligations(tier):
     if not q:
         solid_cfgs += [("wedge", True, False), ("prism", False, True), ("disp", True, True)]
     for kind, other, keep in solid_cfgs:
-        sl += [dict(C, n=n, kind=kind, other=other, keep_vis=keep) for n in ([1] if q else lens)]
+        sl += [dict(C, n=n, li=li, kind=kind, other=other, keep_vis=keep) for n in ([1] if q else lens) for li in ((2,) if q else (0, 1, 2))]
         sl += _indep({"s": CONC, "n": len(CONC), "li": 2, "hidden": kind == "wedge", "vs": kind != "wedge", "cordon": kind == "prism", "kind": kind,
                       "other": other, "keep_vis": keep}, solid_total(kind), 14)
     obls.append(Obl("solid", MOD, "h_solid", slices=sl, budget_s=1500, per_path_s=120,
